@@ -120,6 +120,7 @@ type HarnessConfig struct {
 	Merge           bool
 	BranchSolver    string
 	Tier            string
+	Lazy            bool
 }
 
 type HarnessResult struct {
@@ -154,6 +155,7 @@ func RunHarness(l *Loaded, fn *ssa.Function, cfg HarnessConfig) (res *HarnessRes
 	e.Trace = cfg.Trace
 	e.Merge = cfg.Merge
 	e.Tier = cfg.Tier
+	e.Lazy = cfg.Lazy
 	if cfg.Unwind > 0 {
 		e.Unwind = cfg.Unwind
 	}
